@@ -218,6 +218,7 @@ def emit_harnesses(methods):
     assert!(ok, "POST decode(word) == requested instruction");
 }
 """) % (uw, m.name, decl_symbolic(m), pre, m.name, m.args(), m.name, m.args(), m.name, m.args(), m.name, m.args()))
+            legal_idx = len(names)
             names.append(("legal__" + m.name, m.name, "legal", "quick"))
             o.append(("""#[kani::proof]
 #[kani::unwind(%d)]
@@ -241,6 +242,12 @@ def emit_harnesses(methods):
             if rep_key not in any_reps and m.kind == "simple":      # the composite helpers (unwind 66) stay in the thorough tier
                 any_reps.add(rep_key)
                 any_tier = "quick"
+                # the quick tier has a time budget (~15 min for the whole check): for a representative the any__ harness
+                # (decode == request for ALL accepted operands, and accepted => encodable) replaces the legal__ one there;
+                # what only legal__ shows — legal operands are not refused — stays in the thorough tier for these methods
+                # and is still covered in the quick tier by the family's other methods, which share the cls:: encoder
+                n0 = names[legal_idx]
+                names[legal_idx] = (n0[0], n0[1], n0[2], "thorough")
             names.append(("any__" + m.name, m.name, "any", any_tier))
         else:
             txt, ns = emit_label_harnesses(m)
